@@ -11,7 +11,10 @@ RULE = ('the C08 histories (send family interleaved with reads against an echoin
         'write is followed by a flush before the next write; every logged object has the API string type. '
         'In an eighth of the runs (C07 scenarios, blocking and awaited) the read log is compared with the decoding of the bytes the '
         'kernel delivered. During interact() (a quarter of the runs): logs get the API string type; logfile_read == what was copied to the display; '
-        'logfile_send == what was forwarded to the child. Non-trivial: >= 1 log write; distinct by trace digest')
+        'logfile_send == what was forwarded to the child; a sendcontrol() after the session logs exactly its control byte. Added later: log '
+        'files switched to another object or to None in mid-history (each object holds the transcript of exactly the period it was '
+        'attached), awaited reads with the kernel-truth clause, a failing sendall (the argument is logged although the send fails). '
+        'Non-trivial: >= 1 log write; distinct by trace digest')
 
 ASSUME = ['a quarter of the runs are interact() sessions (C15 harness) with log files attached (clauses C11.interact_*)']
 
